@@ -31,7 +31,7 @@ F32_BITS = [0x00000000, 0x80000000, 0x3f800000, 0xbf800000, 0x7f800000, 0xff8000
             0x00000001, 0x007fffff, 0x00800000, 0x7f7fffff, 0x40490fdb, 0xc2f6e979]
 F64_BITS = [0, 1 << 63, 0x3ff0000000000000, 0x7ff0000000000000, 0xfff0000000000000, 0x7ff8000000000000,
             1, 0x000fffffffffffff, 0x0010000000000000, 0x7fefffffffffffff, 0x400921fb54442d18]
-TEXTS = ['', 'a', 'hello', 'Привет', '日本語', 'a\x00b', ' ', '\U0001f600', 'x' * 254, 'x' * 255, 'x' * 256, 'é' * 127, 'é' * 128]
+TEXTS = ['', 'a', 'hello', '\ufeffbom first', '\ufeff', 'mid\ufeffdle', 'Привет', '日本語', 'a\x00b', ' ', '\U0001f600', 'x' * 254, 'x' * 255, 'x' * 256, 'é' * 127, 'é' * 128]
 BAD_UTF8 = [b'\xff', b'\x80abc', b'\xc3', b'\xed\xa0\x80', b'\xf4\x90\x80\x80', b'\xc0\xaf', b'\x80\x04\x95']
 LENS = [0, 1, 2, 7, 127, 128, 253, 254]
 BIG_LENS = [255, 256, 300, 65535]
